@@ -28,7 +28,7 @@ RULE = ("same projects as C01 (pygen profile 'binding'); query points stratified
 ASSUMPTIONS = ["clause (e) is decided only for bindings the reference binder resolves to a function / lambda / "
                "comprehension scope; module-level, class-level and attribute bindings are judged by (a)-(d) and by C01",
                "unsure occurrences are excluded, as in the statement (statically determined bindings)"]
-BUDGET = {"quick": (500, 200), "thorough": (30000, 480)}
+BUDGET = {"quick": (500, 240), "thorough": (1400, 900)}
 EXHAUSTIVE = {}
 CASE_TIMEOUT = 600
 REQUIRE = {"queries": 1500, "invariance_checked": 800, "rename_agreement_checked": 800, "binder_two_sided_checked": 200,
